@@ -54,23 +54,23 @@ Definition tset_pos (h : th) (p : Z) : th := mkTH (tfile h) (tkey h) (tclosed h)
 
 (* legacy: one reader position per stored File *)
 Definition shared := list ((str * str) * Z).
-Fixpoint sh_get (k : str * str) (l : shared) : Z :=
+Fixpoint tsh_get (k : str * str) (l : shared) : Z :=
   match l with
   | [] => 0
-  | (k', v) :: r => if key_eqb k k' then v else sh_get k r
+  | (k', v) :: r => if key_eqb k k' then v else tsh_get k r
   end.
-Fixpoint sh_set (k : str * str) (v : Z) (l : shared) : shared :=
+Fixpoint tsh_set (k : str * str) (v : Z) (l : shared) : shared :=
   match l with
   | [] => [(k, v)]
-  | (k', v') :: r => if key_eqb k k' then (k, v) :: r else (k', v') :: sh_set k v r
+  | (k', v') :: r => if key_eqb k k' then (k, v) :: r else (k', v') :: tsh_set k v r
   end.
 
 Record tst := mkTS { tix : index; ths : list th; tsh : shared }.
 
 (* the position a handle reads at, and how it is stored back *)
-Definition t_getpos (legacy : bool) (s : tst) (h : th) : Z := if legacy then sh_get (tkey h) (tsh s) else tpos h.
+Definition t_getpos (legacy : bool) (s : tst) (h : th) : Z := if legacy then tsh_get (tkey h) (tsh s) else tpos h.
 Definition t_setpos (legacy : bool) (s : tst) (i : nat) (h : th) (p : Z) : tst :=
-  if legacy then mkTS (tix s) (ths s) (sh_set (tkey h) p (tsh s))
+  if legacy then mkTS (tix s) (ths s) (tsh_set (tkey h) p (tsh s))
   else mkTS (tix s) (list_set i (tset_pos h p) (ths s)) (tsh s).
 
 (* file.go:34-44 Read, 46-56 ReadAt, 58-68 Seek *)
